@@ -2068,6 +2068,89 @@ func genCodec(repo, out string) {
 		}
 		sb.WriteString(dd + "\n")
 	}
+	// Meta.Encode / Meta.Decode (CreatedUnix is time.Now().Unix(): a non-negative int64, written as its 8 little-endian bytes)
+	{
+		fm := findFunc(p, "Meta", "Encode")
+		wm := map[string]func(string) string{}
+		for _, kv := range [][2]string{{"m.CreatedUnix", "encLE 8 created"}, {"m.Level", "encLE 8 level"}} {
+			k, f := w(kv[0], kv[1])
+			wm[k] = f
+		}
+		spe := transSpec{
+			leanName: "encodeMeta",
+			binders:  "(created level : Nat)",
+			retType:  "Option Bytes",
+			exprMap:  map[string]string{"err != nil": "err", "bytes.Clone(buf.Bytes())": "buf"},
+			state:    []string{"buf"}, stateLn: []string{"buf"}, stateTy: []string{"Bytes"},
+			binds: map[string][][2]string{"bufferpool.Pool.Get()": {}, "w.Error()": {{"err", "false"}}},
+			wraps: wm,
+			skipStmt: func(st ast.Stmt) bool {
+				s := goStr(st)
+				return strings.HasPrefix(s, "defer bufferpool.Pool.Put(") || s == "w := utils.NewErrorWriter(buf)"
+			},
+			ret: func(vals []string, st []string) string {
+				if len(vals) == 2 && vals[1] == "nil" {
+					return "some " + vals[0]
+				}
+				return "none"
+			},
+			fallOff:  func(st []string) string { return "none" },
+			panicVal: "none",
+		}
+		de := ""
+		erre := fmt.Errorf("Meta.Encode not found")
+		if fm != nil {
+			t := &translator{spec: spe}
+			body := t.stmts(fm.Body.List, func() string { return "none" }, "", "")
+			erre = t.err
+			de = fmt.Sprintf("def %s %s : %s :=\n  let buf : Bytes := []\n  %s\n", spe.leanName, spe.binders, spe.retType, body)
+		}
+		if erre != nil {
+			de = fmt.Sprintf("/-- UNTRANSLATABLE: %s -/\ndef encodeMeta : Unit := ()\n", strings.ReplaceAll(erre.Error(), "-/", "- /"))
+		}
+		sb.WriteString(de + "\n")
+
+		fdm := findFunc(p, "Meta", "Decode")
+		wd := map[string]func(string) string{}
+		for _, v := range []string{"createdUnix", "level"} {
+			v := v
+			wd["r.Read(binary.LittleEndian, &"+v+")"] = func(tail string) string {
+				return "(let x := rdN 8 reader rerr; let " + v + " := (if x.2.2 then " + v + " else x.1); let reader := x.2.1; let rerr := x.2.2; " + tail + ")"
+			}
+		}
+		spd := transSpec{
+			leanName: "decodeMeta",
+			binders:  "(data : Bytes) (m0 : Nat × Nat)",
+			retType:  "Option (Nat × Nat)",
+			exprMap:  map[string]string{"bytes.NewReader(data)": "data", "err != nil": "err"},
+			state:    []string{"reader", "rerr", "m.CreatedUnix", "m.Level"}, stateLn: []string{"reader", "rerr", "mCreated", "mLevel"},
+			stateTy:  []string{"Bytes", "Bool", "Nat", "Nat"},
+			zero:     map[string]string{"int64": "(0 : Nat)", "uint64": "(0 : Nat)"},
+			binds:    map[string][][2]string{"r.Error()": {{"err", "rerr"}}},
+			wraps:    wd,
+			skipStmt: func(st ast.Stmt) bool { return goStr(st) == "r := utils.NewErrorReader(reader)" },
+			ret: func(vals []string, st []string) string {
+				if len(vals) == 1 && vals[0] == "nil" {
+					return "some (mCreated, mLevel)"
+				}
+				return "none"
+			},
+			fallOff:  func(st []string) string { return "none" },
+			panicVal: "none",
+		}
+		dd := ""
+		errd := fmt.Errorf("Meta.Decode not found")
+		if fdm != nil {
+			t := &translator{spec: spd}
+			body := t.stmts(fdm.Body.List, func() string { return "none" }, "", "")
+			errd = t.err
+			dd = fmt.Sprintf("def %s %s : %s :=\n  let reader : Bytes := []\n  let rerr : Bool := false\n  let mCreated := m0.1\n  let mLevel := m0.2\n  %s\n", spd.leanName, spd.binders, spd.retType, body)
+		}
+		if errd != nil {
+			dd = fmt.Sprintf("/-- UNTRANSLATABLE: %s -/\ndef decodeMeta : Unit := ()\n", strings.ReplaceAll(errd.Error(), "-/", "- /"))
+		}
+		sb.WriteString(dd + "\n")
+	}
 	sb.WriteString("end GenCodec\n")
 	if err := os.WriteFile(out, []byte(sb.String()), 0644); err != nil {
 		panic(err)
